@@ -168,6 +168,9 @@ func (an *Analysis) effectFree(fn *ssa.Function, seen map[*ssa.Function]bool) st
 			if _, isParam := c.Value.(*ssa.Parameter); isParam && !c.IsInvoke() {
 				return // yield-style callback: judged where the callback is defined
 			}
+			if !c.IsInvoke() && an.isCapturedFuncParam(c.Value) {
+				return // the same callback, called from a local closure that captured it (`flush := func() bool { … yield(p) }`)
+			}
 			for _, cal := range callees {
 				if an.P.IsRepoFunc(cal) {
 					if w := an.effectFree(cal, seen); w != "" {
@@ -211,4 +214,43 @@ func (an *Analysis) effectFree(fn *ssa.Function, seen map[*ssa.Function]bool) st
 		}
 	})
 	return why
+}
+
+// isCapturedFuncParam: v is the value of a func-typed parameter of an enclosing function, read through the cell a
+// closure captured it in.
+func (an *Analysis) isCapturedFuncParam(v ssa.Value) bool {
+	u, ok := v.(*ssa.UnOp)
+	if !ok {
+		return false
+	}
+	fv, ok := u.X.(*ssa.FreeVar)
+	if !ok {
+		return false
+	}
+	binds := an.P.freeVarBindings(fv)
+	if len(binds) == 0 {
+		return false
+	}
+	for _, b := range binds {
+		switch x := b.(type) {
+		case *ssa.Alloc:
+			stores := an.P.cellStores(x)
+			if len(stores) == 0 {
+				return false
+			}
+			for _, st := range stores {
+				if _, isP := st.Val.(*ssa.Parameter); !isP {
+					return false
+				}
+			}
+		case *ssa.FreeVar:
+			// captured again by a deeper closure
+			if !an.isCapturedFuncParam(&ssa.UnOp{X: x}) {
+				return false
+			}
+		default:
+			return false
+		}
+	}
+	return true
 }
